@@ -174,6 +174,7 @@ type world struct {
 	ecd    *bgv.Encoder
 	enc    *rlwe.Encryptor
 	dec    *rlwe.Decryptor
+	evk    rlwe.EvaluationKeySet
 	ev     *bgv.Evaluator // evaluator under test (mode of the configuration), with relinearization key
 	evStd  *bgv.Evaluator // BGV-mode evaluator used only to prepare the degree-2 register
 	qs     []uint64
@@ -233,6 +234,7 @@ func getWorld(c *engine.Chooser, cf conf, scen string) *world {
 	w.ecd = bgv.NewEncoder(p)
 	w.enc = rlwe.NewEncryptor(p, w.sk)
 	w.dec = rlwe.NewDecryptor(p, w.sk)
+	w.evk = evk
 	w.ev = bgv.NewEvaluator(p, evk, cf.si)
 	w.evStd = bgv.NewEvaluator(p, evk, false)
 	w.qs = p.Q()
